@@ -329,6 +329,39 @@ def _srcguard(ctx, index):
                 if isinstance(v, ast.Call) and norm(v.func).rpartition(".")[2] == "isfile" and len(v.args) == 1:
                     ctx.ob("C20.srcguard", f, n, True, line=n.lineno)
                     continue
+                if isinstance(v, ast.Constant) and isinstance(v.value, bool):
+                    # the loop spelling: `flag = False; for node in existent_mod.body: ... if name == node.name ...: flag = True; break`
+                    loop = f.mod.parents.get(n)
+                    while loop is not None and loop is not f.node and not isinstance(loop, ast.For):
+                        loop = f.mod.parents.get(loop)
+                    if v.value is True:
+                        namevar_ = next(
+                            (norm(a_) for c in calls for p_, a_ in index.bound_args(f.mod, c, f).items() if p_ == "name" and isinstance(a_, ast.Name)),
+                            "name",
+                        )
+                        good = False
+                        if isinstance(loop, ast.For) and isinstance(loop.target, ast.Name) and norm(loop.iter).endswith(".body"):
+                            lv = loop.target.id
+                            cur, conds = n, []
+                            while cur is not loop:
+                                par = f.mod.parents.get(cur)
+                                if isinstance(par, ast.If) and cur in par.body:
+                                    conds.append(par.test)
+                                cur = par
+                            for t_ in conds:
+                                for c_ in ast.walk(t_):
+                                    if isinstance(c_, ast.Compare) and len(c_.ops) == 1 and isinstance(c_.ops[0], ast.Eq) and {norm(c_.left), norm(c_.comparators[0])} == {namevar_, lv + ".name"}:
+                                        good = True
+                        ctx.need(good, "the 'symbol already in file' flag is raised in a shape the recogniser does not know: {}".format(short(loop if loop is not None else n, 100)))
+                        ctx.ob("C20.srcguard", f, n, True, line=n.lineno)
+                    else:
+                        raised = any(
+                            isinstance(m_, (ast.Assign, ast.AnnAssign)) and m_ is not n and isinstance(getattr(m_, "value", None), ast.Constant) and m_.value.value is True
+                            and any(isinstance(t, ast.Name) and t.id == flag for t in (m_.targets if isinstance(m_, ast.Assign) else [m_.target]))
+                            for m_ in iter_own(f.node)
+                        )
+                        ctx.ob("C20.srcguard", f, n, raised, "" if raised else "`{}` is set to False and never raised: a source module that defines the symbol is judged not to contain it and is overwritten".format(flag), line=n.lineno)
+                    continue
                 modvars = sorted({x.value.id for x in ast.walk(v) if isinstance(x, ast.Attribute) and x.attr == "body" and isinstance(x.value, ast.Name)})
                 # the symbol's name: what emit_file_on_hierarchy hands to _emit_symbol as `name=`
                 namevar = next(
